@@ -62,6 +62,13 @@ def tree_regs(d, acc):
     return acc
 
 
+def has_signed(d):
+    """a node of the dumped tree carries the signed flag"""
+    if isinstance(d, (tuple, list)):
+        return any(x is True or has_signed(x) for x in d)
+    return False
+
+
 def complete(env, d0, d1):
     """env extended by a fixed value for every register of the trees it does not mention (registers introduced by operations)"""
     need = tree_regs(d1, tree_regs(d0, {}))
@@ -74,7 +81,15 @@ def complete(env, d0, d1):
     return env
 
 
-def compare(snap, envs):
+def sign_sensitive(d):
+    if isinstance(d, (tuple, list)):
+        if len(d) >= 4 and d[0] == "op" and d[1] in X.SCMP + ("**", "/", "%"):
+            return True
+        return any(sign_sensitive(x) for x in d)
+    return False
+
+
+def compare(snap, envs, raw=False):
     """[(kind, detail, tree0, tree1)] for watched nodes whose width or value changed"""
     bad = []
     for o, d0, n0 in snap:
@@ -97,6 +112,13 @@ def compare(snap, envs):
                 continue
             except Exception:
                 continue
+            if v0 != v1 and raw and (sign_sensitive(d0) or (not has_signed(d0) and has_signed(d1))):
+                # raw (un-simplified) trees only: folding -(1) gives the signed constant -1, and an ordering comparison / division
+                # / widening product above it then reads its operands signed although the raw node was flagged unsigned: which
+                # operation the un-simplified node denotes is amoco's conditional-operand signedness question (C01, known
+                # finding), not a change of value by the operation.  Trees without sign-sensitive operators are decisive.
+                bad.append(("reshaped-signedness-view", "", d0, d1))
+                break
             if v0 != v1:
                 bad.append(("value", "a watched %s node was re-shaped from %s into a non-equivalent form: %#x before, %#x after under %s" % (
                     d0[0], str(d0)[:80], v0, v1, env), d0, d1))
@@ -247,7 +269,9 @@ def worker(args):
     for _ in range(ncases):
         r, signed, threshold, envs = c01.gen_case(rng, 4)
         cx.conf.Cas.complexity = threshold
-        B = X.Builder(signed)
+        # half of the trees are made of raw nodes: they reach the operations un-simplified, so in-place rewriting happens there
+        raw = rng.random() < 0.5
+        B = X.Builder(signed, raw=raw)
         try:
             e = B.build(r)
         except Exception:
@@ -257,7 +281,7 @@ def worker(args):
         signal.alarm(20)
         try:
             names = apply_ops(cx, e, B, rng, snap)
-            bad = compare(snap, envs)
+            bad = compare(snap, envs, raw)
         except CaseTimeout:
             names, bad = ["timeout"], []
         except (MemoryError, RecursionError):
@@ -269,6 +293,9 @@ def worker(args):
         if len(snap) >= 3:
             out["nontrivial"] += 1
         for kind, detail, d0, d1 in bad:
+            if kind == "reshaped-signedness-view":
+                out["ops"]["(signedness-view re-shapes)"] = out["ops"].get("(signedness-view re-shapes)", 0) + 1
+                continue
             if kind == "reshaped-equivalent":
                 if len(out["reshaped"]) < 40:
                     out["reshaped"].append((d0, d1, envs))
